@@ -1,7 +1,394 @@
-//! (stub) driver module - see tools/HOWTO.md
-use crate::util::Args;
+//! Driver for C17: bitmap and TheDraw fonts survive every encoding the engine uses.
+//!
+//! Bitmap fonts: one event per (font, carrier)
+//!   {"ev":"font","case":..,"carrier":"psf2|u8|rawfile|dcs|xbin|xbin2|adf|idf|icy","cls":..,"idx":0|1,"slot":..,
+//!    "r":"ok|save-err|save-panic|load-err|load-panic|missing","site":..,
+//!    "in":{"w","h","n","g":[n*h glyph bytes],"ng":glyphs.len()},"bytes":[carrier bytes],"out":{same}|{}}
+//! carrier bytes: the PSF2 file, the raw glyph data, the code points of the DCS string, the whole XBin/ADF/IDF file,
+//! the decoded FONT_<slot> chunk payload of the IcyDraw file.
+//! TheDraw fonts: one event per file
+//!   {"ev":"tdf","case":..,"cls":..,"mode":"single|bundle","r":"ok|save-err|save-panic|load-err|load-panic|re-err","site":..,
+//!    "in":[{"name":[..],"type":0..2,"sp":..,"glyphs":[[] | [w,h,[data]] x 94]}..],"bytes":[file],
+//!    "out":[{"name","type","sp","def":[0|1 x 94]}..],"re":[re-encoding of the fonts read back]}
+//! (TheDrawFont keeps its glyph table private: the glyph data of the fonts read back is observed through their
+//! re-encoding, which the specification's own decoder Tdf.tla reads.)
+use crate::icy::{digest, unwrap_chunks};
+use crate::util::{guard, panic_site, rng, Args, Out};
+use icy_engine::{ansi, editor::EditState, get_crc32, TextPane, AttributedChar, BitFont, Buffer, BufferParser, Caret, FontGlyph, FontType, IceMode, SaveOptions, TextAttribute, TheDrawFont, FONT_NAMES, SAUCE_FONT_NAMES};
+use rand::rngs::StdRng;
+use rand::Rng;
+use serde_json::{json, Value};
+use std::path::Path;
 
-pub fn c17(_a: &Args) {
-    eprintln!("c17: driver not built yet");
-    std::process::exit(2);
+fn font_value(f: &BitFont) -> Value {
+    let mut g: Vec<u8> = Vec::new();
+    for c in 0..f.length.max(0) as u32 {
+        if let Some(gl) = char::from_u32(c).and_then(|c| f.get_glyph(c)) {
+            g.extend_from_slice(&gl.data);
+        }
+    }
+    json!({"w": f.size.width, "h": f.size.height, "n": f.length, "g": g, "ng": f.glyphs.len()})
+}
+
+fn random_font(r: &mut StdRng, name: &str, h: u8, n: usize) -> BitFont {
+    let mut data: Vec<u8> = (0..n * h as usize).map(|_| match r.gen_range(0..8) { 0 => 0, 1 => 255, _ => r.gen() }).collect();
+    // keep the raw data clear of the PSF magics (the sniffing loaders are probed separately, class "psf?-magic")
+    if data.len() >= 2 && data[0] == 0x36 && data[1] == 0x04 { data[0] = 0x37; }
+    if data.len() >= 4 && data[0..4] == [0x72, 0xb5, 0x4a, 0x86] { data[0] = 0x73; }
+    let mut f = BitFont::create_8(name, 8, h, &data);
+    f.length = n as i32;
+    f
+}
+
+struct Res {
+    r: &'static str,
+    site: String,
+    bytes: Vec<Value>,
+    out: Value,
+}
+
+fn fail(r: &'static str, site: String, bytes: Vec<Value>) -> Res { Res { r, site, bytes, out: json!({}) } }
+fn bytes_value(b: &[u8]) -> Vec<Value> { b.iter().map(|x| json!(*x)).collect() }
+
+/// Save with `save`, record the carrier bytes, load with `load`.
+fn through<S, L>(save: S, load: L) -> Res
+where S: FnOnce() -> Result<Vec<Value>, String>, L: FnOnce() -> Result<Option<BitFont>, String> {
+    let bytes = match guard(save) {
+        Ok(Ok(b)) => b,
+        Ok(Err(e)) => return fail("save-err", e, vec![]),
+        Err(p) => return fail("save-panic", panic_site(&p), vec![]),
+    };
+    match guard(load) {
+        Ok(Ok(Some(f))) => Res { r: "ok", site: String::new(), bytes, out: font_value(&f) },
+        Ok(Ok(None)) => fail("missing", "no font at the expected slot after loading".into(), bytes),
+        Ok(Err(e)) => fail("load-err", e, bytes),
+        Err(p) => fail("load-panic", panic_site(&p), bytes),
+    }
+}
+
+fn picture(size: (i32, i32), fonts: &[(usize, &BitFont)], ice: bool) -> Buffer {
+    let mut buf = Buffer::new(size);
+    if ice { buf.ice_mode = IceMode::Ice; }
+    for (slot, f) in fonts { buf.set_font(*slot, (*f).clone()); }
+    for (i, (slot, _)) in fonts.iter().enumerate() {
+        let mut a = TextAttribute::new(7, 0);
+        a.set_font_page(*slot);
+        buf.layers[0].set_char((i as i32, 0), AttributedChar::new((b'A' + i as u8) as char, a));
+    }
+    buf
+}
+
+/// One (font, carrier) experiment; `other` is the second font of the XBin 512-character mode.
+fn run_font(out: &mut Out, case: &str, cls: &str, carrier: &str, f: &BitFont, other: Option<&BitFont>, slot: usize, variant: u64) {
+    let h = f.size.height as u8;
+    let input = font_value(f);
+    let lossless = variant % 2 == 0;
+    let mut opts = SaveOptions::default();
+    opts.lossles_output = lossless;
+    let mut idx = 0;
+    let cell: std::cell::RefCell<Vec<u8>> = std::cell::RefCell::new(Vec::new());
+    let res = match carrier {
+        "psf2" => through(|| f.to_psf2_bytes().map(|b| { *cell.borrow_mut() = b.clone(); bytes_value(&b) }).map_err(|e| e.to_string()),
+                          || BitFont::from_bytes("back", &cell.borrow()).map(Some).map_err(|e| e.to_string())),
+        "u8" => through(|| { let b = f.convert_to_u8_data(); *cell.borrow_mut() = b.clone(); Ok(bytes_value(&b)) },
+                        || Ok(Some(if variant % 2 == 0 { BitFont::create_8("back", 8, h, &cell.borrow()) } else { BitFont::from_basic(8, h, &cell.borrow()) }))),
+        "rawfile" => through(|| { let b = f.convert_to_u8_data(); *cell.borrow_mut() = b.clone(); Ok(bytes_value(&b)) },
+                             || BitFont::from_bytes("back.f16", &cell.borrow()).map(Some).map_err(|e| e.to_string())),
+        "dcs" => {
+            let seq = std::cell::RefCell::new(String::new());
+            through(|| { let s = f.encode_as_ansi(slot); let v = s.chars().map(|c| json!(c as u32)).collect(); *seq.borrow_mut() = s; Ok(v) },
+                    || {
+                        let mut buf = Buffer::create((80, 25));
+                        buf.is_terminal_buffer = true;
+                        let mut caret = Caret::default();
+                        let mut parser = ansi::Parser::default();
+                        for ch in seq.borrow().chars() {
+                            parser.print_char(&mut buf, 0, &mut caret, ch).map_err(|e| e.to_string())?;
+                        }
+                        Ok(buf.get_font(slot).filter(|x| x.name.starts_with("custom font")).cloned())
+                    })
+        }
+        "xbin" | "adf" | "idf" => {
+            let ext = match carrier { "xbin" => "xb", x => x };
+            let size = if carrier == "adf" { (80, 1) } else { (variant as i32 % 3 + 1, 1) };
+            let buf = picture(size, &[(0, f)], carrier != "xbin" || variant % 4 < 2);
+            through(|| buf.to_bytes(ext, &opts).map(|b| { *cell.borrow_mut() = b.clone(); bytes_value(&b) }).map_err(|e| e.to_string()),
+                    || Buffer::from_bytes(Path::new(&format!("case.{ext}")), true, &cell.borrow()).map(|b| b.get_font(0).cloned()).map_err(|e| e.to_string()))
+        }
+        "xbin2" => {
+            let o = other.expect("second font");
+            let buf = picture((2, 1), &[(0, f), (1, o)], variant % 4 < 2);
+            idx = (variant % 2) as usize;
+            through(|| buf.to_bytes("xb", &opts).map(|b| { *cell.borrow_mut() = b.clone(); bytes_value(&b) }).map_err(|e| e.to_string()),
+                    || Buffer::from_bytes(Path::new("case.xb"), true, &cell.borrow()).map(|b| b.get_font(idx).cloned()).map_err(|e| e.to_string()))
+        }
+        _ => { // "icy"
+            let mut buf = Buffer::new((2, 1));
+            buf.set_font(slot, f.clone());
+            let mut o = SaveOptions::default();
+            o.lossles_output = true;
+            through(|| {
+                        let file = buf.to_bytes("icy", &o).map_err(|e| e.to_string())?;
+                        let chunks = unwrap_chunks(&file)?;
+                        let payload = chunks.into_iter().find(|(k, _)| *k == format!("FONT_{slot}")).map(|(_, d)| d).ok_or("no FONT chunk")?;
+                        *cell.borrow_mut() = file;
+                        Ok(bytes_value(&payload))
+                    },
+                    || Buffer::from_bytes(Path::new("case.icy"), true, &cell.borrow()).map(|b| b.get_font(slot).cloned()).map_err(|e| e.to_string()))
+        }
+    };
+    let input = if carrier == "xbin2" && idx == 1 { font_value(other.unwrap()) } else { input };
+    let h = digest(&json!([carrier, idx, input]));
+    out.ev(&json!({"ev":"font","case":case,"carrier":carrier,"cls":cls,"idx":idx,"slot":slot,"r":res.r,"site":res.site,"in":input,"bytes":res.bytes,"out":res.out}));
+    out.ev(&json!({"ev":"sum","kind":"font","case":case,"h":h,"ok":(res.r == "ok") as u8,"n":1}));
+}
+
+fn supports(carrier: &str, h: i32, n: i32) -> bool {
+    match carrier { "psf2" | "icy" => true, "adf" | "idf" => h == 16 && n == 256, _ => n == 256 }
+}
+
+const CARRIERS: [&str; 9] = ["psf2", "u8", "rawfile", "dcs", "xbin", "xbin2", "adf", "idf", "icy"];
+
+// ------------------------------------------------------------------------------------------------ TheDraw fonts
+fn tdf_type(t: i64) -> FontType { match t { 0 => FontType::Outline, 1 => FontType::Block, _ => FontType::Color } }
+fn tdf_type_no(t: FontType) -> u8 { match t { FontType::Outline => 0, FontType::Block => 1, FontType::Color => 2 } }
+
+fn glyph_data(r: &mut StdRng, t: i64, w: usize, h: usize, full: bool) -> Vec<u8> {
+    let mut d = Vec::new();
+    let trailing_cr = r.gen_bool(0.3);
+    for y in 0..h {
+        let len = if full { w } else { r.gen_range(0..=w) };
+        for _ in 0..len {
+            match t {
+                0 => d.push(*b"@ ABCDEFGHIJKLMNOPQ&".get(r.gen_range(0..20)).unwrap()),
+                1 => d.push(match r.gen_range(0..4) { 0 => b' ', 1 => 0xF7, 2 => 0xDB, _ => { let mut c: u8 = r.gen_range(1..=255); if c == 13 { c = 14; } c } }),
+                _ => {
+                    let mut c: u8 = match r.gen_range(0..3) { 0 => b' ', 1 => 0xDB, _ => r.gen_range(1..=255) };
+                    if c == 13 { c = 14; }
+                    d.push(c);
+                    d.push(match r.gen_range(0..6) { 0 => 0, 1 => 13, 2 => 255, _ => r.gen() }); // the attribute may be ANY byte, also 00 and 0D
+                }
+            }
+        }
+        if y + 1 < h || trailing_cr { d.push(13); }
+    }
+    d
+}
+
+struct TdfIn { name: String, t: i64, sp: i32, glyphs: Vec<Option<(usize, usize, Vec<u8>)>> }
+
+fn build_tdf(f: &TdfIn) -> TheDrawFont {
+    let mut font = TheDrawFont::new(f.name.clone(), tdf_type(f.t), f.sp);
+    for (k, g) in f.glyphs.iter().enumerate() {
+        if let Some((w, h, d)) = g {
+            font.set_glyph((33 + k as u8) as char, FontGlyph { size: (*w, *h).into(), data: d.clone() });
+        }
+    }
+    font
+}
+
+fn tdf_in_value(f: &TdfIn) -> Value {
+    json!({"name": f.name.as_bytes(), "type": f.t, "sp": f.sp,
+           "glyphs": f.glyphs.iter().map(|g| match g { Some((w, h, d)) => json!([w, h, d]), None => json!([]) }).collect::<Vec<_>>()})
+}
+
+fn tdf_name(r: &mut StdRng, n: usize) -> String {
+    (0..n).map(|_| match r.gen_range(0..6) { 0 => ' ', 1 => '~', _ => r.gen_range(0x21u8..0x7F) as char }).collect()
+}
+
+fn small_tdf(r: &mut StdRng) -> TdfIn {
+    let t = r.gen_range(0..3);
+    let mut glyphs = vec![None; 94];
+    for _ in 0..r.gen_range(0..4) {
+        let (w, h) = (r.gen_range(1..=4), r.gen_range(1..=3));
+        glyphs[r.gen_range(0..94)] = Some((w, h, glyph_data(r, t, w, h, false)));
+    }
+    let nl = r.gen_range(0..=12);
+    TdfIn { name: tdf_name(r, nl), t, sp: r.gen_range(0..=40), glyphs }
+}
+
+
+/// What the engine's own renderer draws for every defined glyph: [] (undefined) or [width, rows, crcHi, crcLo] with the CRC-32
+/// over the drawn cells (position, character, colours, attribute bits).  A second, independent view of the glyph data.
+fn render_digest(f: &TheDrawFont) -> Value {
+    Value::Array((33u8..=126).map(|code| {
+        if !f.has_char(code) { return json!([]); }
+        let mut ed = EditState::default();
+        match guard(|| f.render(&mut ed, code)) {
+            Ok(Some(size)) => {
+                let mut bytes: Vec<u8> = Vec::new();
+                let layer = &ed.get_buffer().layers[0];
+                for y in 0..layer.get_height() { for x in 0..layer.get_width() {
+                    let ch = layer.get_char((x, y));
+                    if ch.is_visible() {
+                        bytes.extend([x as u8, y as u8]);
+                        bytes.extend((ch.ch as u32).to_le_bytes());
+                        bytes.extend(ch.attribute.get_foreground().to_le_bytes());
+                        bytes.extend(ch.attribute.get_background().to_le_bytes());
+                        bytes.extend(ch.attribute.attr.to_le_bytes());
+                    }
+                } }
+                let crc = get_crc32(&bytes);
+                json!([size.width, size.height, crc >> 16, crc & 0xFFFF])
+            }
+            Ok(None) => json!([0, 0, 0, 0]),
+            Err(_) => json!([-1, -1, 0, 0]),
+        }
+    }).collect())
+}
+
+fn run_tdf(out: &mut Out, case: &str, cls: &str, fonts: &[TdfIn], single: bool) {
+    let input: Vec<Value> = fonts.iter().map(tdf_in_value).collect();
+    // one digest per font of the file: distinct fonts are what is counted
+    let hs: Vec<String> = input.iter().map(digest).collect();
+    let ok = run_tdf_inner(out, case, cls, fonts, single, input);
+    out.ev(&json!({"ev":"sum","kind":"tdf","case":case,"h":hs,"ok":ok as u8,"n":fonts.len()}));
+}
+
+fn run_tdf_inner(out: &mut Out, case: &str, cls: &str, fonts: &[TdfIn], single: bool, input: Vec<Value>) -> bool {
+    let built: Vec<TheDrawFont> = fonts.iter().map(build_tdf).collect();
+    let mode = if single { "single" } else { "bundle" };
+    let mut ev = json!({"ev":"tdf","case":case,"cls":cls,"mode":mode,"r":"ok","site":"","in":input,"bytes":[],"out":[],"re":[],"rin":built.iter().map(render_digest).collect::<Vec<_>>(),"rout":[]});
+    let saved = guard(|| if single { built[0].as_tdf_bytes() } else { TheDrawFont::create_font_bundle(&built) }.map_err(|e| e.to_string()));
+    let bytes = match saved {
+        Ok(Ok(b)) => b,
+        Ok(Err(e)) => { ev["r"] = json!("save-err"); ev["site"] = json!(e); out.ev(&ev); return false; }
+        Err(p) => { ev["r"] = json!("save-panic"); ev["site"] = json!(panic_site(&p)); out.ev(&ev); return false; }
+    };
+    ev["bytes"] = json!(bytes);
+    let back = match guard(|| TheDrawFont::from_tdf_bytes(&bytes).map_err(|e| e.to_string())) {
+        Ok(Ok(f)) => f,
+        Ok(Err(e)) => { ev["r"] = json!("load-err"); ev["site"] = json!(e); out.ev(&ev); return false; }
+        Err(p) => { ev["r"] = json!("load-panic"); ev["site"] = json!(panic_site(&p)); out.ev(&ev); return false; }
+    };
+    ev["out"] = Value::Array(back.iter().map(|f| json!({"name": f.name.as_bytes(), "type": tdf_type_no(f.font_type), "sp": f.spaces,
+        "def": (33u8..=126).map(|c| f.has_char(c) as u8).collect::<Vec<_>>()})).collect());
+    ev["rout"] = Value::Array(back.iter().map(render_digest).collect());
+    match guard(|| if back.is_empty() { Ok(vec![]) } else if single && back.len() == 1 { back[0].as_tdf_bytes() } else { TheDrawFont::create_font_bundle(&back) }.map_err(|e| e.to_string())) {
+        Ok(Ok(b)) => { ev["re"] = json!(b); out.ev(&ev); return true; }
+        Ok(Err(e)) => { ev["r"] = json!("re-err"); ev["site"] = json!(e); }
+        Err(p) => { ev["r"] = json!("re-err"); ev["site"] = json!(panic_site(&p)); }
+    }
+    out.ev(&ev);
+    false
+}
+
+pub fn c17(a: &Args) {
+    let mut out = Out::create(&a.str("out", "work/C17/trace.ndjson"));
+    let seed = a.u64("seed", 0);
+    let thorough = a.str("tier", "quick") == "thorough";
+    let only = a.str("only", "");
+    let read = |path: String| -> Vec<Value> { std::fs::read_to_string(path).map(|t| t.lines().filter_map(|l| serde_json::from_str(l).ok()).collect()).unwrap_or_default() };
+    let font_cases = read(a.str("gen", "gen/fonts.ndjson"));
+    let tdf_cases = read(a.str("gentdf", "gen/tdf.ndjson"));
+    let mut n_font = 0usize;
+    let mut n_tdf = 0usize;
+
+    // (1) TLC case table heights x glyph counts x carriers, glyph bytes seeded random
+    if only.is_empty() || only == "table" {
+        let mut r = rng(seed, 17);
+        let mut idx: Vec<usize> = (0..font_cases.len()).collect();
+        // deterministic order of the table (TLC prints in its own order): sort by (carrier, n, h)
+        idx.sort_by_key(|i| (font_cases[*i]["c"].as_str().unwrap_or("").to_string(), font_cases[*i]["n"].as_i64().unwrap_or(0), font_cases[*i]["h"].as_i64().unwrap_or(0)));
+        for (k, i) in idx.iter().enumerate() {
+            let c = &font_cases[*i];
+            let (carrier, h, n) = (c["c"].as_str().unwrap_or("psf2"), c["h"].as_i64().unwrap_or(16), c["n"].as_i64().unwrap_or(256));
+            // quick tier: boundary heights always, the rest sampled by seed (every second case)
+            let boundary = h == 1 || h == 32 || h == 16;
+            if !thorough && !boundary && (k as u64 + seed) % 2 != 0 { continue; }
+            let f = random_font(&mut r, &format!("font {h}"), h as u8, n as usize);
+            let o = random_font(&mut r, "second", h as u8, 256);
+            let slot = if carrier == "icy" || carrier == "dcs" { [0usize, 1, 42, 255, 256, 300][r.gen_range(0..6)] } else { 0 };
+            run_font(&mut out, &format!("table-{carrier}-{h}-{n}"), "random", carrier, &f, Some(&o), slot, k as u64 + seed);
+            n_font += 1;
+        }
+    }
+
+    // (2) every built-in font page and every SAUCE font, through one carrier each in the quick tier (rotating with the seed), all carriers in the thorough tier
+    if only.is_empty() || only == "builtin" {
+        let mut named: Vec<(String, BitFont)> = Vec::new();
+        for p in 0..=42usize {
+            match guard(|| BitFont::from_ansi_font_page(p).map_err(|e| e.to_string())) {
+                Ok(Ok(f)) => named.push((format!("page-{p}"), f)),
+                Ok(Err(e)) => out.ev(&json!({"ev":"font","case":format!("page-{p}"),"carrier":"builtin","cls":"builtin","idx":0,"slot":p,"r":"load-err","site":e,"in":{},"bytes":[],"out":{}})),
+                Err(pi) => out.ev(&json!({"ev":"font","case":format!("page-{p}"),"carrier":"builtin","cls":"builtin","idx":0,"slot":p,"r":"load-panic","site":panic_site(&pi),"in":{},"bytes":[],"out":{}})),
+            }
+        }
+        for name in SAUCE_FONT_NAMES {
+            if let Ok(Ok(f)) = guard(|| BitFont::from_sauce_name(name).map_err(|e| e.to_string())) { named.push((format!("sauce-{name}"), f)); }
+        }
+        let _ = FONT_NAMES;
+        for (k, (label, f)) in named.iter().enumerate() {
+            let usable: Vec<&str> = CARRIERS.iter().copied().filter(|c| *c != "xbin2" && *c != "rawfile" && supports(c, f.size.height, f.length)).collect();
+            let chosen: Vec<&str> = if thorough { usable.clone() } else { vec![usable[(k + seed as usize) % usable.len()]] };
+            for carrier in chosen {
+                run_font(&mut out, label, "builtin", carrier, f, None, if carrier == "icy" || carrier == "dcs" { 1 + k % 40 } else { 0 }, k as u64 + seed);
+                n_font += 1;
+            }
+        }
+    }
+
+    // (3) raw glyph data that begins with a PSF magic, through the sniffing loaders (DCS font sequence)
+    if only.is_empty() || only == "magic" {
+        let mut r = rng(seed, 18);
+        for (cls, prefix) in [("psf1-magic", vec![0x36u8, 0x04, 0x00, 0x10]), ("psf2-magic", vec![0x72, 0xb5, 0x4a, 0x86])] {
+            let h = 16u8;
+            let mut data: Vec<u8> = (0..256 * h as usize).map(|_| r.gen()).collect();
+            data[..prefix.len()].copy_from_slice(&prefix);
+            let f = BitFont::create_8("magic", 8, h, &data);
+            run_font(&mut out, &format!("dcs-{cls}"), cls, "dcs", &f, None, 5, 0);
+            n_font += 1;
+        }
+    }
+
+    // (4) TheDraw fonts: TLC case table type x defined subset x size x name length x bundle size
+    if only.is_empty() || only == "tdf" {
+        let mut idx: Vec<usize> = (0..tdf_cases.len()).collect();
+        idx.sort_by_key(|i| { let c = &tdf_cases[*i]; (c["type"].as_i64(), c["def"].as_str().map(str::to_string), c["w"].as_i64(), c["h"].as_i64(), c["bundle"].as_i64(), c["name"].as_i64()) });
+        for (k, i) in idx.iter().enumerate() {
+            let c = &tdf_cases[*i];
+            let gv = |key: &str| c[key].as_i64().unwrap_or(0);
+            let (t, w, h, nl, bundle) = (gv("type"), gv("w") as usize, gv("h") as usize, gv("name") as usize, gv("bundle") as usize);
+            let def = c["def"].as_str().unwrap_or("none");
+            let heavy = def == "all" && w == 30 && h == 12;
+            let take = if thorough { !heavy || nl % 4 == 0 } else if heavy { (k as u64 + seed) % 13 == 0 } else { (k as u64 + seed) % 6 == 0 };
+            if !take { continue; }
+            let mut r = rng(seed, 40_000 + k as u64);
+            let mut glyphs = vec![None; 94];
+            let which: Vec<usize> = match def { "none" => vec![], "first" => vec![0], "last" => vec![93], _ => (0..94).collect() };
+            for g in which { glyphs[g] = Some((w, h, glyph_data(&mut r, t, w, h, true))); }
+            let primary = TdfIn { name: tdf_name(&mut r, nl), t, sp: [0, 1, 40][k % 3], glyphs };
+            let mut fonts = vec![primary];
+            while fonts.len() < bundle { fonts.push(small_tdf(&mut r)); }
+            let pos = if bundle > 1 { r.gen_range(0..bundle) } else { 0 };
+            fonts.swap(0, pos); // the case font sits at a random position of the bundle
+            let single = bundle == 1 && k % 2 == 0;
+            let block: usize = fonts[pos].glyphs.iter().flatten().map(|(_, _, d)| d.len() + 3).sum();
+            run_tdf(&mut out, &format!("tdf-{t}-{def}-{w}x{h}-n{nl}-b{bundle}"), if block > 65535 { "block>64K" } else { "table" }, &fonts, single);
+            n_tdf += 1;
+        }
+        // seeded random fonts: ragged rows, random subsets
+        for d in 0..(if thorough { 200 } else { 40 }) {
+            let mut r = rng(seed, 60_000 + d);
+            let nf = match r.gen_range(0..4) { 0 => 1, 1 => 34, _ => r.gen_range(1..=6) };
+            let fonts: Vec<TdfIn> = (0..nf).map(|_| {
+                let t = r.gen_range(0..3);
+                let mut glyphs = vec![None; 94];
+                let cnt = match r.gen_range(0..4) { 0 => 0, 1 => 94, _ => r.gen_range(0..20) };
+                for _ in 0..cnt {
+                    let (w, h) = (r.gen_range(1..=if nf > 6 { 6 } else { 30 }), r.gen_range(1..=if nf > 6 { 4 } else { 12 }));
+                    let k = r.gen_range(0..94);
+                    let at = if cnt == 94 { (0..94).find(|i| glyphs[*i].is_none()).unwrap_or(k) } else { k };
+                    glyphs[at] = Some((w, h, glyph_data(&mut r, t, w, h, false)));
+                }
+                let nl = r.gen_range(0..=12);
+                TdfIn { name: tdf_name(&mut r, nl), t, sp: r.gen_range(0..=40), glyphs }
+            }).collect();
+            let block: usize = fonts.iter().map(|f| f.glyphs.iter().flatten().map(|(_, _, d)| d.len() + 3).sum::<usize>()).max().unwrap_or(0);
+            run_tdf(&mut out, &format!("tdf-rnd-{seed}-{d}"), if block > 65535 { "block>64K" } else { "random" }, &fonts, nf == 1 && d % 2 == 0);
+            n_tdf += 1;
+        }
+    }
+    out.flush();
+    eprintln!("c17: {n_font} bitmap font round trips, {n_tdf} TheDraw files, {} events ({} + {} TLC cases available)", out.n, font_cases.len(), tdf_cases.len());
 }
